@@ -175,11 +175,33 @@ def run(eng, R):
         f = get_func(p, None, "kafe2.tools:get_compact_representation")
         src = _txt(f.node)
         # placeholders: `_n` / `_v` / `_e` name, value and uncertainty of one row, `_se` / `_sv` their decimals, `_rows` the correlation row strings
-        ZIP = "zip(parameter_names, parameter_values, parameter_errors, _rows)"
-        ok = common.like_any(src, ["(_n, _v, _e, _c) in enumerate(%s)" % ZIP, "_row.append(round(_v, _sv))", "_row.append(round(_e, _se))", "_sv = max(_se,"],
-                             ["(_n, _v, _e, _c) in enumerate(%s)" % ZIP, "_row = [_n, round(_v, _sv), round(_e, _se)]", "_sv = max(_se,"],
-                             ["_n, _v, _e, _c in %s" % ZIP, "_row.append(round(_v, _sv))", "_row.append(round(_e, _se))", "_sv = max(_se,"])
-        R.ob("T-live", "get_compact_representation:rows", ok, (f.file, f.lineno), "each row must show name, value and uncertainty of the same position; the value is rounded to at least the decimals of the uncertainty")
+        # the row loop: name, value, uncertainty and correlation row of one position; per path through its body the value is rounded to at least as many decimals as the
+        # uncertainty (written with temporaries, a conditional expression or a helper - all the same)
+        rows_ok = False
+        for lp in [n for n in ast.walk(f.node) if isinstance(n, ast.For)]:
+            it, tg = lp.iter, lp.target
+            if isinstance(it, ast.Call) and _txt(it.func) == "enumerate" and it.args and isinstance(tg, ast.Tuple) and len(tg.elts) == 2:
+                it, tg = it.args[0], tg.elts[1]
+            it = common.resolve_local(f.node, it)
+            if not (isinstance(it, ast.Call) and _txt(it.func) == "zip" and [_txt(a) for a in it.args[:3]] == ["parameter_names", "parameter_values", "parameter_errors"]
+                    and isinstance(tg, ast.Tuple) and len(tg.elts) >= 3 and all(isinstance(x, ast.Name) for x in tg.elts[:3])):
+                continue
+            vn, vv, ve = (x.id for x in tg.elts[:3])
+            body = ast.Module(body=lp.body, type_ignores=[])
+            is_round = lambda c, who: isinstance(c.func, ast.Name) and c.func.id == "round" and len(c.args) == 2 and _txt(c.args[0]) == who  # noqa: E731
+            dv = common.call_args_by_path(body, lambda c: is_round(c, vv), arg=lambda c: c.args[1])
+            de = common.call_args_by_path(body, lambda c: is_round(c, ve), arg=lambda c: c.args[1])
+            good = bool(dv) and bool(de)
+            for c, e in dv:
+                # (the decimals of the uncertainty on the same path: the path of the value may have taken further decisions)
+                ses = {_txt(e2) for c2, e2 in de if set(c2) <= set(c)}
+                t = _txt(e)
+                good = good and len(ses) == 1 and any(t == se or t.startswith("max(%s, " % se) for se in ses)
+            # the row starts with the name and receives both rounded numbers
+            bs = common.src_of(body)
+            named = bs.like("_row = [%s]" % vn) or bs.like("_row = [%s, round(%s, _sv), round(%s, _se)]" % (vn, vv, ve)) or bs.like("_row.append(%s)" % vn)
+            rows_ok = rows_ok or (good and bool(named))
+        R.ob("T-live", "get_compact_representation:rows", rows_ok, (f.file, f.lineno), "each row must show name, value and uncertainty of the same position; the value is rounded to at least the decimals of the uncertainty")
 
         # every log10 in the compact table is taken of a quantity that was tested against zero / nan on the way there
         f = get_func(p, None, "kafe2.tools:get_compact_representation")
